@@ -36,12 +36,12 @@ CONSTANTS Txns,        \* transaction slots
           ChkPaths,    \* storage paths (literal) over which TxnOrder / RejectedChangesNothing look
           MaxOps       \* requests + commits per transaction
 
-VARIABLES view, stored, open, pristine, deltas,
+VARIABLES view, viewdef, stored, open, pristine, deltas,
           wpaths,   \* history: storage paths (patterns) in deltas[t] since Begin / last successful commit
           nops, mon, last
 
-vars == <<view, stored, open, pristine, deltas, wpaths, nops, mon, last>>
-mcview == <<view, stored, open, pristine, deltas, wpaths, nops, mon>>
+vars == <<view, viewdef, stored, open, pristine, deltas, wpaths, nops, mon, last>>
+mcview == <<view, viewdef, stored, open, pristine, deltas, wpaths, nops, mon>>
 
 -----------------------------------------------------------------------
 (* values *)
@@ -160,15 +160,16 @@ StorPath(r, req) == LET b == Binding(r, req)
                     IN [i \in 1..Len(r.stor) |-> IF r.stor[i] \in DOMAIN b THEN b[r.stor[i]] ELSE r.stor[i]]
 ReplaceIn(path, ph, cand) == [i \in 1..Len(path) |-> IF path[i] = ph THEN cand ELSE path[i]]
 
-(* getValuesThroughPaths -> set of <<storage path, value>>, or Err *)
+(* getValuesThroughPaths -> [ok, s]: s = set of <<storage path, value>>; ok = FALSE on error *)
 RECURSIVE Through(_, _, _)
 Through(sp, sfx, val) ==
-    IF sfx = <<>> THEN {<<sp, val>>}
-    ELSE IF val.t # "m" THEN Err            \* includes null: "expected map for unmatched request parts"
+    IF sfx = <<>> THEN [ok |-> TRUE, s |-> {<<sp, val>>}]
+    ELSE IF val.t # "m" THEN [ok |-> FALSE, s |-> {}]   \* includes null: "expected map for unmatched request parts"
     ELSE IF ~IsPh(Head(sfx))
-    THEN (IF Head(sfx) \in DOMAIN val.m THEN Through(sp, Tail(sfx), val.m[Head(sfx)]) ELSE Err)
+    THEN (IF Head(sfx) \in DOMAIN val.m THEN Through(sp, Tail(sfx), val.m[Head(sfx)])
+          ELSE [ok |-> FALSE, s |-> {}])
     ELSE LET parts == {Through(ReplaceIn(sp, Head(sfx), c), Tail(sfx), val.m[c]) : c \in DOMAIN val.m}
-         IN  IF Err \in parts THEN Err ELSE UNION parts
+         IN  [ok |-> \A x \in parts : x.ok, s |-> UNION {x.s : x \in parts}]
 
 (* prunePathInValue -> remaining value, or Absent when nothing is left *)
 RECURSIVE Prune(_, _)
@@ -206,8 +207,8 @@ ViewSet(req, val) ==
         exps == {Through(StorPath(view[i], req), Suffix(view[i], req), val) : i \in ms}
         left == PruneAll({Suffix(view[i], req) : i \in ms}, val)
     IN  IF ms = {} THEN [res |-> NotFound, ds |-> <<>>]
-        ELSE IF Err \in exps \/ left # Absent THEN [res |-> BadReq, ds |-> <<>>]
-        ELSE [res |-> Ok, ds |-> SeqOf(UNION exps)]
+        ELSE IF (\E x \in exps : ~x.ok) \/ left # Absent THEN [res |-> BadReq, ds |-> <<>>]
+        ELSE [res |-> Ok, ds |-> SeqOf(UNION {x.s : x \in exps})]
 
 (* View.Unset *)
 ViewUnset(req) ==
@@ -279,7 +280,8 @@ Exact(bag, q) == IF bag = Err THEN ErrR ELSE BagGet(bag, q)
 AllOk == [access |-> TRUE, raw |-> TRUE, rejected |-> TRUE, order |-> TRUE]
 
 Init ==
-    /\ view \in {Flatten(v) : v \in Views}
+    /\ viewdef \in Views
+    /\ view = Flatten(viewdef)
     /\ stored = EmptyMap
     /\ open = [t \in Txns |-> FALSE]
     /\ pristine = [t \in Txns |-> EmptyMap]
@@ -298,7 +300,7 @@ Begin(t) ==
     /\ wpaths' = [wpaths EXCEPT ![t] = {}]
     /\ mon' = AllOk
     /\ last' = [op |-> "begin", t |-> t]
-    /\ UNCHANGED <<view, stored, nops>>
+    /\ UNCHANGED <<view, viewdef, stored, nops>>
 
 AccessOk(op, req, touched) ==
     \A c \in touched :
@@ -331,7 +333,7 @@ Set(t, req, val) ==
                  !.rejected = (r.res # Ok) => r.ds = <<>>,
                  !.raw = (r.res = Ok /\ RawApplies(req, val) /\ nbag # Err)
                             => ViewGet(nbag, req) = Val(val)]
-    /\ UNCHANGED <<view, stored, open, pristine>>
+    /\ UNCHANGED <<view, viewdef, stored, open, pristine>>
 
 (* View.Unset(tx, req) *)
 Unset(t, req) ==
@@ -344,7 +346,7 @@ Unset(t, req) ==
            /\ last' = [op |-> "unset", t |-> t, req |-> req, res |-> r.res, touched |-> touched]
            /\ mon' = [AllOk EXCEPT !.access = AccessOk("unset", req, touched),
                                    !.rejected = (r.res # Ok) => r.ds = <<>>]
-    /\ UNCHANGED <<view, stored, open, pristine>>
+    /\ UNCHANGED <<view, viewdef, stored, open, pristine>>
 
 (* View.Get(tx, req) *)
 Get(t, req) ==
@@ -354,7 +356,7 @@ Get(t, req) ==
            touched == TouchedBy("get", req, <<>>)     \* a Get that fails stops early: a subset of these
        IN  /\ last' = [op |-> "get", t |-> t, req |-> req, res |-> ViewGet(bag, req), touched |-> touched]
            /\ mon' = [AllOk EXCEPT !.access = AccessOk("get", req, touched)]
-    /\ UNCHANGED <<view, stored, open, pristine, deltas, wpaths>>
+    /\ UNCHANGED <<view, viewdef, stored, open, pristine, deltas, wpaths>>
 
 (* Transaction.Commit *)
 Commit(t) ==
@@ -377,7 +379,7 @@ Commit(t) ==
                                                  => Exact(nb, q) = Exact(stored, q)]
               ELSE /\ UNCHANGED <<stored, pristine, deltas, wpaths>>      \* the original databag is kept
                    /\ mon' = AllOk
-    /\ UNCHANGED <<view, open>>
+    /\ UNCHANGED <<view, viewdef, open>>
 
 Next ==
     \/ \E t \in Txns : Begin(t) \/ Commit(t)
